@@ -11,6 +11,7 @@ pub mod c01;
 pub mod c04;
 pub mod c05;
 pub mod c07;
+pub mod c08;
 pub mod c18;
 
 pub struct Ctx<'a> {
@@ -121,6 +122,7 @@ pub type CustomRun = fn(bool, u64, Option<String>) -> Report;
 
 pub fn custom_by_id(id: &str) -> Option<CustomRun> {
     match id {
+        "C08" => Some(c08::run),
         "C18" => Some(c18::run),
         _ => None,
     }
